@@ -236,6 +236,8 @@ func runStress(c *stressCfg) (panics []panicRec, deadlock string, calls int64) {
 		r := vhlib.NewRng(c.seed*1000003 + uint64(g))
 		go func(g int, r *vhlib.Rng) {
 			defer wg.Done()
+			kept := make([]reflect.Value, 6)
+			nkept := 0
 			<-start
 			for i := 0; i < c.iters; i++ {
 				m := pick(r)
@@ -245,6 +247,19 @@ func runStress(c *stressCfg) (panics []panicRec, deadlock string, calls int64) {
 				res := invoke(inst, m, args)
 				c.inflight[g].Store("")
 				atomic.AddInt64(&ncalls, 1)
+				// keep what the call handed out, keep reading it and now and then write into it while the other goroutines
+				// mutate the instance: a result that aliases guarded storage is then a race the detector reports
+				for _, v := range retainable(res) {
+					kept[nkept%len(kept)] = v
+					nkept++
+				}
+				if i%3 == 0 {
+					for j, v := range kept {
+						if v.IsValid() {
+							touch(v, (i+j)%16 == 0)
+						}
+					}
+				}
 				if !res.panicked && failed(res) {
 					c.lastErr.Store(m.name + "(" + clipStr(argString(args), 60) + ")")
 					c.lastErrMeth.Store(m.name)
@@ -891,6 +906,12 @@ func childType(o vhlib.Opts, name string, tab *table, out *childOut) {
 	if len(ms) == 0 {
 		return
 	}
+	// sequential and watchdog-only probes first (a race report ends a halting child)
+	if !lightChild {
+		aliasProbe(s, ms, tab, o.Seed, out)
+	}
+	selfArgProbe(s, ms, tab, o.Seed, out)
+	out.save(o.Out)
 	G, iters := 8, 3000
 	if o.Thorough() {
 		G, iters = 12, 15000
@@ -1178,6 +1199,13 @@ func runChild(o vhlib.Opts) {
 		childType(o, parts[2], tab, out)
 	case "target":
 		childTarget(o, parts[2], tab, out)
+	case "nest":
+		i := strings.LastIndex(parts[2], ".")
+		if s := specByName(parts[2][:i]); s != nil {
+			childSetup(o, s, tab, out)
+			all, _ := usableMethods(s.mk(2))
+			pairProbe(s, filterMeths(all, probeSeqPanics(s, all, o.Seed)), tab, parts[2][i+1:], o.Seed, out)
+		}
 	case "lost":
 		childLost(o, parts[2], tab, out)
 	}
@@ -1376,6 +1404,7 @@ func delegateSanity(w *vhlib.Writer, tab *table, o vhlib.Opts) {
 var frameRx = regexp.MustCompile(`go-baseutils/[\w/]*?(\w+)\.\(\*(\w+)(?:\[[^\]]*\])?\)\.(\w+)`)
 
 type raceRep struct {
+	What    string   `json:"what"`
 	Label   string   `json:"label"`
 	Methods []string `json:"methods"`
 	Text    string   `json:"text"`
@@ -1383,7 +1412,7 @@ type raceRep struct {
 
 // parseRaces: one report per "WARNING: DATA RACE" block; the label is the first frame that is a method of the table
 // (an offending entry if one is on either stack).
-func parseRaces(txt string, tab *table, hint string) []raceRep {
+func parseRaces(txt string, tab *table, hint, jobName string) []raceRep {
 	var reps []raceRep
 	blocks := strings.Split(txt, "WARNING: DATA RACE")
 	offender := map[string]bool{}
@@ -1419,7 +1448,15 @@ func parseRaces(txt string, tab *table, hint string) []raceRep {
 		if label == "" {
 			label = "unattributed"
 		}
-		reps = append(reps, raceRep{label, ms, clipStr("WARNING: DATA RACE"+b, 3500)})
+		what := "data race"
+		if strings.Contains(b, "main.touch(") || strings.Contains(b, "main.sentinel(") {
+			// one side is the caller goroutine reading / writing a slice or map it was handed by an earlier call
+			what = "data race on a retained result (a slice/map handed out by a method aliases guarded storage)"
+			if jobName != "" {
+				label = jobName
+			}
+		}
+		reps = append(reps, raceRep{what, label, ms, clipStr("WARNING: DATA RACE"+b, 3500)})
 	}
 	return reps
 }
@@ -1556,6 +1593,16 @@ func main() {
 			jobs = append(jobs, &job{mode: mode, name: s.name, gmp: g, halt: true})
 		}
 	}
+	// lock-order probes: every method that accepts another instance of its own type, pair in both orders
+	for _, s := range reg {
+		inst := s.mk(1)
+		ms, _ := usableMethods(inst)
+		for _, m := range ms {
+			if len(selfArgIdx(inst, m)) > 0 {
+				jobs = append(jobs, &job{mode: "nest", name: s.name + "." + m.name, gmp: 4, halt: false})
+			}
+		}
+	}
 	// the methods to stress for an offending entry: itself if it is exported, else the exported entry points that
 	// forward to it (bcache.BCache.Get -> bCache.get)
 	var targets []string
@@ -1636,6 +1683,7 @@ func main() {
 	seqPanics := map[string]interface{}{}
 	var slowest []string
 	raceSeen := map[string]bool{}
+	nestRaces := map[string]int{}
 	for _, j := range jobs {
 		id := fmt.Sprintf("%s:%s GOMAXPROCS=%d", j.mode, j.name, j.gmp)
 		if j.dur > 30*time.Second {
@@ -1645,13 +1693,22 @@ func main() {
 		if !isType(j.mode) {
 			hint = j.name
 		}
-		for _, r := range parseRaces(j.raceTxt+"\n"+j.stderr, tab, hint) {
+		races := parseRaces(j.raceTxt+"\n"+j.stderr, tab, hint, j.name)
+		if j.mode == "nest" {
+			// lock-order probe: only its watchdog is a verdict (see pairProbe); races on the ARGUMENT's storage are the
+			// known note findings/C11-note-bmap-argument-maps-unsynchronised.json
+			if len(races) > 0 {
+				nestRaces[j.name] = len(races)
+			}
+			races = nil
+		}
+		for _, r := range races {
 			k := r.Label + "|" + strings.Join(r.Methods, ",")
 			if raceSeen[k] {
 				continue
 			}
 			raceSeen[k] = true
-			w.Violation(r.Label, "data race", map[string]interface{}{"job": id, "seed": o.Seed, "methods_on_the_stacks": r.Methods, "report": r.Text})
+			w.Violation(r.Label, r.What, map[string]interface{}{"job": id, "seed": o.Seed, "methods_on_the_stacks": r.Methods, "report": r.Text})
 		}
 		if j.out != nil {
 			totalCalls += j.out.Calls
@@ -1681,6 +1738,10 @@ func main() {
 		finished := j.out != nil && j.out.Done
 		switch {
 		case finished && j.exit == 0:
+		case j.mode == "nest":
+			if !finished { // e.g. the runtime's "concurrent map read and map write" on the argument: same note
+				nestRaces[j.name+" (ended early: "+clipStr(strings.SplitN(strings.TrimSpace(j.stderr), "\n", 2)[0], 80)+")"]++
+			}
 		case j.raceTxt != "" || strings.Contains(j.stderr, "WARNING: DATA RACE"):
 			// reported above (halt_on_error ends the child at the first report)
 		case j.timedOut:
@@ -1701,6 +1762,7 @@ func main() {
 			w.Violation(label, what, map[string]interface{}{"job": id, "exit": j.exit, "stderr": j.stderr})
 		}
 	}
+	w.Notes["lock_order_probes_argument_races_not_judged"] = nestRaces
 	w.Notes["children"] = len(jobs)
 	w.Notes["concurrent_calls"] = totalCalls
 	w.Notes["methods_exercised_concurrently"] = len(methodsSeen)
